@@ -379,8 +379,8 @@ void coap_session_init_token(coap_session_t *session, size_t length,
  * @param token   Updated with the new token data (must be 8 bytes long).
  *
  */
-void coap_session_new_token(coap_session_t *session, size_t *length,
-                            uint8_t *token);
+COAP_API void coap_session_new_token(coap_session_t *session, size_t *length,
+                                     uint8_t *token);
 
 /**
  * @ingroup logging
